@@ -377,6 +377,8 @@ fn attribute(rules: &[(String, Expr)], k: usize, family_default: &[&'static str]
     let mut t: Vec<&'static str> = vec![];
     if cacheable_calls || mentions(e, &|x| matches!(x, Expr::Function(n, _) if n == "undefined_fn")) { t.push("C11"); }
     if calls && !cacheable_calls { t.push("C05"); }
+    // "a function that declares itself non-cacheable is invoked on every call" is a clause of C11 as well
+    if mentions(e, &|x| matches!(x, Expr::Function(n, _) if n == "count_nc")) && !t.contains(&"C11") { t.push("C11"); }
     if lookups && !calls { t.push("C10"); }
     if !calls && !lookups { t.push("C02"); }
     if rules.len() > 1 && k > 0 && calls { t.push("C09"); } // outcome depends on what earlier rules did
@@ -413,7 +415,8 @@ fn check_scenario(rep: &mut Report, what: &str, tags: &[&str], rules: Vec<(Strin
                         }
                         if run.log != exp_log {
                             let cacheable = rules.iter().any(|(_, e)| mentions(e, &|x| matches!(x, Expr::Function(n, _) if n != "probe" && n != "count_nc")));
-                            let t: &[&str] = if cacheable { &["C11"] } else { &["C05"] };
+                            let nc = rules.iter().any(|(_, e)| mentions(e, &|x| matches!(x, Expr::Function(n, _) if n == "count_nc")));
+                            let t: &[&str] = if cacheable { &["C11"] } else if nc { &["C05", "C11"] } else { &["C05"] };
                             rep.fail(t, "invocation-history", &desc, &format!("evaluation #{k}: calls {:?}", run.log.iter().map(|c| format!("{}({})", c.name, c.arg)).collect::<Vec<_>>()),
                                      &format!("{:?}", exp_log.iter().map(|c| format!("{}({})", c.name, c.arg)).collect::<Vec<_>>()));
                             return;
@@ -487,6 +490,8 @@ fn family_ruleset() {
         call("count_nc", v(1)), call("get", v(-1)), call("get", v(1)), call("get_more", v(1)), call("flaky", v(1)),
         call("count", Expr::Vec(vec![v("a"), v("b")])), call("count", Expr::Vec(vec![v("a\", \"b")])),
         Expr::iif(Expr::none(call("get", v(-1))), v(0), v(1)),
+        // None as an argument and as a (cached) result; a cacheable identity
+        call("id", v(Value::None)), call("id", v(1)), call("count", v(Value::None)), call("count_nc", v(Value::None)), call("get_more", v(Value::None)),
     ];
     // all pairs and a selection of triples
     for (i, a) in blocks.iter().enumerate() {
@@ -497,6 +502,12 @@ fn family_ruleset() {
                     check_scenario(&mut rep, "triple", &tags, vec![("r1".into(), a.clone()), ("r2".into(), b.clone()), ("r3".into(), c)], &syms, &facts);
                 }
             }
+        }
+    }
+    // cacheable call, something else in between, the same cacheable call again (the cache entry must survive what happens in between)
+    for first in [call("count", v(1)), call("id", v(Value::None)), call("id", v(1)), call("count", v(Value::None))] {
+        for mid in [call("count_nc", v(1)), call("count_nc", v(Value::None)), bad(), call("get", v(-1)), call("count", v(2)), call("undefined_fn", v(1)), call("flaky", v(1))] {
+            check_scenario(&mut rep, "sandwich", &tags, vec![("r1".into(), first.clone()), ("r2".into(), mid.clone()), ("r3".into(), first.clone())], &syms, &facts);
         }
     }
     check_scenario(&mut rep, "empty", &tags, vec![], &syms, &facts);
@@ -567,9 +578,10 @@ fn is_ident(s: &str) -> bool {
         None => false,
     }
 }
-// conservative approximations good enough for the name pool below (ASCII + a few letters)
-fn unicode_ident_start(c: char) -> bool { c.is_alphabetic() }
-fn unicode_ident_continue(c: char) -> bool { c.is_alphanumeric() || c == '_' }
+// the per-character classes are the Unicode XID tables themselves (crate unicode-xid, also a dependency of reval): what the property
+// fixes is the STRUCTURE (first `_` or XID_Start, then XID_Continue), which is what the oracle above spells out
+fn unicode_ident_start(c: char) -> bool { unicode_xid::UnicodeXID::is_xid_start(c) }
+fn unicode_ident_continue(c: char) -> bool { unicode_xid::UnicodeXID::is_xid_continue(c) }
 
 const RESERVED: [&str; 38] = [
     "and", "or", "if", "then", "else", "is_some", "is_none", "some", "int", "float", "dec", "true", "false", "none", "contains", "in",
@@ -582,6 +594,10 @@ fn family_builder() {
     // every candidate function name on its own
     let mut names: Vec<&'static str> = RESERVED.to_vec();
     names.extend(["f", "_f", "f1", "1f", "_", "_-", "_ x", "a b", "a-b", "", "é", "f_", "F", "datetime2", "_1"]);
+    // one name starting with each printable ASCII character that is not an identifier start (the neighbours of '_' and of the letters in
+    // code-point order matter: '^', '`', '@', '[', '{', ...), and some non-ASCII starts
+    names.extend(["!a", "\"a", "#a", "$a", "%a", "&a", "'a", "(a", ")a", "*a", "+a", ",a", "-a", ".a", "/a", "0a", "9a", ":a", ";a", "<a", "=a", ">a", "?a", "@a",
+                  "[a", "\\a", "]a", "^a", "`a", "{a", "|a", "}a", "~a", " a", "\u{7f}a", "\u{a0}a", "\u{2028}a", "€a", "٣a", "_é", "éa", "π", "名前", "a\u{301}", "\u{301}a"]);
     for n in &names {
         rep.cases += 1;
         let r = ruleset().with_function(NamedFn(n));
